@@ -16,7 +16,8 @@ Inductive obj : Type :=
 | OComplex (re im : Z)           (* halves *)
 | OStr (s : list N)
 | OBytes (s : list N)
-| OIntInst (c : N) (z : Z)       (* instance of an int subclass (IntEnum member) *)
+| OIntInst (c : N) (z : Z)       (* instance of an int subclass (IntEnum member, class ISub(int)) *)
+| OFloatInst (c : N) (h : Z)     (* instance of a float subclass (class FSub(float), float-Enum member); value h/2 *)
 | OInst (c : N) (k : N)          (* instance k of user class c; default (identity) __eq__/__hash__ *)
 | OClass (c : N)                 (* a class object *)
 | OTuple (id : N) (l : list obj)
@@ -36,7 +37,7 @@ Definition class_of (o : obj) : N :=
   match o with
   | ONone => c_NoneType | OBool _ => c_bool | OInt _ => c_int | OFloat _ => c_float
   | OComplex _ _ => c_complex | OStr _ => c_str | OBytes _ => c_bytes
-  | OIntInst c _ => c | OInst c _ => c | OClass _ => c_type
+  | OIntInst c _ => c | OFloatInst c _ => c | OInst c _ => c | OClass _ => c_type
   | OTuple _ _ => c_tuple | OList _ _ => c_list | OSet _ _ => c_set
   | OFrozenset _ => c_frozenset | ODict _ _ => c_dict
   end.
@@ -47,6 +48,7 @@ Definition num (o : obj) : option (Z * Z) :=
   | OBool b => Some ((if b then 2 else 0)%Z, 0%Z)
   | OInt z => Some ((2 * z)%Z, 0%Z)
   | OIntInst _ z => Some ((2 * z)%Z, 0%Z)
+  | OFloatInst _ h => Some (h, 0%Z)
   | OFloat h => Some (h, 0%Z)
   | OComplex r i => Some (r, i)
   | _ => None
